@@ -15,7 +15,7 @@ def errName : DecErr → String
 def valToJson : CVal → Json
   | .score b => Json.mkObj [("t", "score"), ("v", b)]
   | .i64 v => Json.mkObj [("t", "i64"), ("v", v)]
-  | .f64 l => Json.mkObj [("t", "f64"), ("lex", asciiStr l)]
+  | .f64 b => Json.mkObj [("t", "f64"), ("v", b)]
   | .str s => Json.mkObj [("t", "str"), ("hex", bytesToHex s)]
   | .missing => Json.mkObj [("t", "missing")]
 
@@ -24,7 +24,7 @@ def valOfJson (j : Json) : Except String CVal := do
   match t with
   | "score" => return .score (← getNat j "v")
   | "i64" => return .i64 (← getInt j "v")
-  | "f64" => return .f64 (strBytes (← getStr j "lex"))
+  | "f64" => return .f64 (← getNat j "v")
   | "str" => return .str (← hexToBytes (← getStr j "hex"))
   | "missing" => return .missing
   | _ => throw s!"bad value tag {t}"
@@ -162,18 +162,21 @@ def handle (req : Json) : Except String Json := do
     -- {"segs":[…], "ops":[{"op":"commit","dels":[[i,d]…],"adds":n}|{"op":"compact"}]}
     let segs ← (← getArr req "segs").toList.mapM segOfJson
     let ops ← getArr req "ops"
-    let mut idx : Index := segs
+    let mut st : IndexState := { segs := segs, revision := getNatD req "revision" 0 }
     let mut out : Array Json := #[]
     for o in ops do
       let k ← getStr o "op"
       if k == "commit" then
         let dels ← (← getArr o "dels").toList.mapM pairOfJson
-        idx := commit idx dels (← getNat o "adds")
+        let adds ← getNat o "adds"
+        -- `pending` defaults to the number of queued operations the harness describes
+        let pending := getNatD o "pending" (dels.length + adds)
+        st := (IdxOp.commit dels adds pending).apply st
       else if k == "compact" then
-        idx := compact idx
+        st := IdxOp.compact.apply st
       else throw s!"bad index op {k}"
-      out := out.push (Json.mkObj [("generation", manifestGen idx),
-        ("segs", Json.arr (idx.map segToJson).toArray)])
+      out := out.push (Json.mkObj [("generation", readerGen st), ("legacy_generation", readerGenLegacy st),
+        ("segs", Json.arr (st.segs.map segToJson).toArray)])
     return Json.mkObj [("states", Json.arr out)]
   | _ => throw s!"C11: unknown op {op}"
 
